@@ -406,6 +406,22 @@ func init() {
 			}
 			// every entry that evaluates builds its context with the constructor
 			ctor := p.MustFn("vuego.NewVueContext")
+			// ... and the constructor always installs a fresh set (a nil set panics on the first v-once element of an included component)
+			ctorSets := false
+			eachInstr(ctor, func(in ssa.Instruction) {
+				if st, ok := in.(*ssa.Store); ok && fieldVar(st.Addr) == seenField {
+					if _, isMk := st.Val.(*ssa.MakeMap); isMk {
+						unconditional := true
+						for _, r := range returnsOf(ctor) {
+							if !dominates(st, r) {
+								unconditional = false
+							}
+						}
+						ctorSets = unconditional
+					}
+				}
+			})
+			c.check(ctorSets, "NewVueContext: fresh seen set on every path", p.pos(ctor.Pos()), "seen: make(map…) unconditionally", "the context constructor does not always install a fresh seen set: a render whose own template has no v-once element passes a nil set down the include chain, and the first v-once element of a component panics (assignment to entry in nil map)")
 			for _, fn := range p.Funcs {
 				for _, site := range callsIn(fn) {
 					if site.Common().StaticCallee() == ctor {
